@@ -211,6 +211,16 @@ func genCoremalCase(rng *Rng, maxOps int) (*CoreCase, error) {
 	sort.Strings(g.leaves)
 	var pending []CoreEvent
 	emit := func(op CoreOp) {
+		if op.Kind == "node_add" {
+			// a removed node id that is registered again is live again
+			kept := g.removedN[:0]
+			for _, n := range g.removedN {
+				if n != op.Node {
+					kept = append(kept, n)
+				}
+			}
+			g.removedN = kept
+		}
 		c.Ops = append(c.Ops, op)
 		st := d.step(&c.Ops[len(c.Ops)-1])
 		c.Steps = append(c.Steps, st)
